@@ -313,6 +313,49 @@ func runSeqStage(c *lib.Ctx, rng *rand.Rand, ls *lib.Livesim, nextID *int, disti
 		}
 	}
 
+	// session-start histories: the first seconds after start_<S>, with availabilityTimeOffsets below, at and
+	// above the segment duration (and larger than the time since the start), both timeline modes
+	for rep := 0; rep < nGrid; rep++ {
+		for ai, a := range bpAssets {
+			segS := float64(a.segMS) / 1000
+			for _, ato := range []string{"", "0.5", "1.5", fmt.Sprint(segS), fmt.Sprint(segS + 1), fmt.Sprint(2*segS + 3), "30", "inf"} {
+				mode := []string{"segtimeline_1", "segtimelinenr_1"}[(ai+len(ato)+rep)%2]
+				if ato == "inf" {
+					mode = "" // an infinite offset is only allowed without a timeline
+				}
+				startS := 1000 + rng.Int63n(1700000000)
+				ttl := []int{10, 30, 60}[rng.Intn(3)]
+				opts := fmt.Sprintf("patch_%d/start_%d", ttl, startS)
+				if mode != "" {
+					opts += "/" + mode
+				}
+				if ato != "" {
+					opts += "/ato_" + ato + "/ltgt_3000"
+				}
+				if rng.Intn(3) == 0 {
+					opts += "/periods_" + []string{"60", "360"}[rng.Intn(2)]
+				}
+				t := startS*1000 + rng.Int63n(800)
+				times := []int64{t}
+				for len(times) < 12 {
+					t += 300 + rng.Int63n(a.segMS)
+					times = append(times, t)
+				}
+				in := c11in{Kind: "l1seq", Stream: "l1seq", URL: "/livesim2/" + opts + "/" + a.asset, Times: times}
+				id := *nextID
+				*nextID++
+				sid := fmt.Sprint(id)
+				c.Res.Inputs[sid] = in
+				st := runSeq(c, ls, sid, in)
+				c.Res.Evaluations += st.Pairs
+				c.Count("l1seq:session-start-history")
+				if st.Served > 0 {
+					distinct[fmt.Sprint("seq", in.URL, in.Times[0])] = true
+				}
+			}
+		}
+	}
+
 	// the pairwise grid addressing mode x periods x start x stop, on the plain bundled assets
 	gridAssets := []string{"testpic_2s/Manifest.mpd", "testpic_8s/Manifest.mpd", "testpic_alt_seg_dur_stl/Manifest.mpd"}
 	for rep := 0; rep < nGrid; rep++ {
